@@ -100,7 +100,7 @@ def run_one(job):
         shutil.copy(os.path.join(VERIF, "known_findings.json"), tv)
         os.makedirs(os.path.join(tv, "checker"), exist_ok=True)
         shutil.copy(os.path.join(VERIF, "checker", "known_funcs.txt"), os.path.join(tv, "checker"))
-        r = subprocess.run([os.path.join(VERIF, "bin/verifcheck"), "-repo", dst, "-verif", tv, "-prop", "all"], capture_output=True, text=True)
+        r = subprocess.run([os.environ.get("VERIFCHECK_BIN", os.path.join(VERIF, "bin/verifcheck")), "-repo", dst, "-verif", tv, "-prop", "all"], capture_output=True, text=True)
         out = r.stdout + r.stderr
         if r.returncode == 2:
             return {"idx": idx, "file": path, "line": ln + 1, "old": old.strip(), "new": lines[ln].strip(), "kind": kind, "status": "nocompile" if "type/load errors" in out else "error", "detail": out[-300:] if "type/load errors" not in out else ""}
